@@ -76,7 +76,7 @@ def odd_programs(tier: str) -> List[str]:
     # loops governed by a scratch counter (incl. a subroutine entry as loop header) and conditions consumed by switch/match
     import itertools  # pylint: disable=import-outside-toplevel
 
-    for s in itertools.chain(spaces.counted_loops(odd[:2], tier, max_size=2 if tier == "quick" else 3), spaces.multiway(odd[:6] + named[:2])):
+    for s in itertools.chain(spaces.counted_loops(odd[:2], tier, max_size=2), spaces.multiway(odd[:6] + named[:2])):
         if s not in seen:
             seen.add(s)
             out.append(s)
